@@ -21,10 +21,26 @@ class Op:
         self.nan_default, self.excl_nan, self.may_raise = nan_default, excl_nan, may_raise
         self.chain, self.out, self.cond, self.weight, self.identity = chain, out, cond, (2 if identity is not None else weight), identity
 
+def _no_overlap(p):
+    """sufficient test: sorted by stride, every stride exceeds the extent of the dimensions below it"""
+    reach = 0
+    for st, n in sorted((st, n) for st, n in zip(p.stride(), p.size()) if n > 1):
+        if st <= reach: return False
+        reach += st * (n - 1)
+    return True
+
 def _clone_apply(f):
-    """in-place method applied to a fresh clone; the method must return self"""
+    """in-place method applied to a fresh clone; the method must return self.  Tensor.clone() makes sliced
+    storage contiguous, so when the operand's physical tensor is non-contiguous (and does not overlap: in-place
+    writes through overlapping views are undefined in torch itself) the clone gets a copy of the storage WITH the
+    operand's strides: the in-place operation runs on the layout the caller supplied"""
     def run(ts, args):
         t = ts[0].clone()
+        p = ts[0].physical
+        if not p.is_contiguous() and _no_overlap(p):
+            from fggs.indices import PatternedTensor
+            q = torch.empty_strided(p.size(), p.stride(), dtype=p.dtype); q.copy_(p)
+            t = PatternedTensor(q, t.paxes, t.vaxes, t.default)
         r = f(t, *args)
         if r is not t: raise AssertionError("in-place operation did not return self")
         return t
@@ -292,11 +308,17 @@ def gen_operands(op, rng, types, pats):
         # one-hot operands in every position (C08-d): patterns WITHOUT physical axes but with a non-unit virtual
         # shape -- one-hot vectors, single-cell matrices, eye(n)[i] -- or one-hot dimensions next to a physical one
         if rng.random() < 0.22:
+            orig = list(specs)
             j = rng.randrange(len(specs))
             specs[j] = U.onehot_like(specs[j], rng, keep=0.25)
             if rng.random() < 0.25:
                 j2 = rng.randrange(len(specs))
                 specs[j2] = U.onehot_like(specs[j2], rng, keep=0.25)
+            # keep the operands TYPED ALIKE: a flat one-hot dimension SumAxis(i, unitAxis, n-i-1) has the type of a
+            # position inside an ATOM of size n (what getitem makes of a physical axis); against a partner whose
+            # dimension type is a sum / product it is a different index type (the library warns "index type
+            # mismatch" and may miss a coincidence) -- outside the property's domain, so such conversions are undone
+            if not _onehot_types_ok(specs): specs[:] = orig
         return specs
     if kind == "where":
         c, pool = partner(t, "bool", None, pool)
@@ -309,6 +331,17 @@ def gen_operands(op, rng, types, pats):
         if rng.random() < 0.5: t["default"] = op.identity
         if rng.random() < 0.4: u["default"] = op.identity
     return onehot([t, u])
+
+def _is_onehot_type(t):
+    return t[0] == "sum" and ("atom", 1) in [tuple(x) for x in t[1]]
+
+def _onehot_types_ok(specs):
+    nd = max(len(sp["types"]) for sp in specs)
+    for r in range(1, nd + 1):
+        ts = [sp["types"][-r] for sp in specs if len(sp["types"]) >= r and U.tsize(sp["types"][-r]) != 1]
+        hot = [t for t in ts if _is_onehot_type(t)]
+        if hot and any(t[0] != "atom" and not _is_onehot_type(t) for t in ts): return False
+    return True
 
 def spec_from_pattern(ts, vax, rng, kind, default, nan):
     paxes = U.fv_list(vax); rng.shuffle(paxes)
@@ -371,6 +404,9 @@ def run_step(op, tensors, denses, args, mon):
         mon.active = False
         if rexc is not None: return Outcome("both_raise", exc=ex), None, None
         if isinstance(ex, op.may_raise) and not (len(args) > 1 and args[1] is True):
+            return Outcome("allowed_raise", exc=ex), None, None
+        if op.name == "view" and isinstance(ex, RuntimeError) and not all(t.physical.is_contiguous() for t in tensors):
+            # Tensor.view() itself refuses storage whose strides cannot be regrouped; only contiguous storage must succeed
             return Outcome("allowed_raise", exc=ex), None, None
         return Outcome("raise", detail=repr(ex), exc=ex), None, None
     finally:
@@ -539,6 +575,7 @@ def special_copy_(rng, mon):
         n = math.prod(k for _, k in dst["paxes"])
         src = dict(types=dst["types"], vaxes=[sh(e) for e in dst["vaxes"]], paxes=[(k + 40, m) for k, m in dst["paxes"]],
                    default=src["default"], dtype=src["dtype"], values=U.gen_values(n, rng, "bool" if src["dtype"] == "bool" else "float"))
+    relayout([src], rng)
     case = dict(op="copy_", args=[], operands=[dst, src])
     w = U.World()
     d = U.build_tensor(dst, w); s = U.build_tensor(src, w)
@@ -598,6 +635,7 @@ def special_stack(rng, mon):
         if onehot_inputs and rng.random() < 0.7: u = U.onehot_like(u, rng, keep=0.3)
         specs.append(u)
     dim = rng.randrange(len(first["types"]) + 1)
+    relayout(specs, rng)
     case = dict(op="stack", args=[dim], operands=specs)
     w = U.World()
     ts = [U.build_tensor(s, w) for s in specs]; ds = [U.dense_ref(s) for s in specs]
@@ -637,6 +675,7 @@ def special_project(rng, mon):
         vax2, _ = U.gen_pattern(t["types"], rng, pl)
     pax2 = U.fv_list(vax2); rng.shuffle(pax2)
     if math.prod(n for _, n in pax2) > 200: return None, None
+    relayout([t], rng)
     case = dict(op="project", args=[pax2, vax2], operands=[t])
     w = U.World()
     tt = U.build_tensor(t, w); d = U.dense_ref(t)
@@ -662,6 +701,9 @@ def special_project(rng, mon):
 SPECIALS = {"copy_": special_copy_, "stack": special_stack, "project": special_project}
 
 # ---------------------------------------------------------------------------- driver
+VIEW_OPS = ["expand", "expand", "expand", "expand_as", "getitem", "transpose", "permute", "T", "flatten", "unsqueeze",
+            "freshen", "detach", "reshape", "dim_to_dense", "any"]
+
 def gen_case(op, rng, types, pat=None):
     for _ in range(20):
         specs = gen_operands(op, rng, types, pat)
@@ -686,15 +728,31 @@ def gen_case(op, rng, types, pat=None):
                 sp["vaxes"] = list(sp["vaxes"]); sp["vaxes"][d] = sp["vaxes"][cand[0]]
                 sp["paxes"] = U.fv_list(sp["vaxes"]); n = math.prod(k for _, k in sp["paxes"])
                 sp["values"] = U.gen_values(n, rng, "bool" if sp["dtype"] == "bool" else "float")
+        relayout(specs, rng)
         return dict(op=op.name, args=args, operands=specs)
     return None
+
+P_LAYOUT = 0.35
+def relayout(specs, rng, p=None):
+    """storage layout of the operands' physical tensors (see _c06_util.add_layout): with probability P_LAYOUT per
+    operand the physical tensor is a partially / fully expanded (stride-0) view, a permuted, sliced, offset or
+    overlapping view of a larger buffer, the way a caller may supply it; the values of the spec are rewritten
+    so that the layout can hold them, hence dense_ref and the wire format still describe the logical contents"""
+    for sp in specs:
+        if "layout" not in sp and rng.random() < (P_LAYOUT if p is None else p): U.add_layout(sp, rng)
+    return specs
 
 def gen_chain(rng, types):
     """a composition of 2..3 operations; later steps only see the shape/dtype of the running result"""
     # operations compared with a tolerance (or with cells excluded) may only end a composition: after them the
     # running reference and the implementation's value may legitimately differ in the last bit
     inexact = lambda o: o.tol > 0 or o.tol32 > 0 or o.excl_nan
-    first = rng.choice([o for o in OPS if o.chain and not inexact(o)])
+    if rng.random() < 0.4:
+        # histories: an operation that returns a VIEW of its operand's storage (expand() adds stride-0 dimensions,
+        # getitem / iter / any slice, permute / T / flatten / reshape regroup), then operations on that view
+        first = BYNAME[rng.choice(VIEW_OPS)]
+    else:
+        first = rng.choice([o for o in OPS if o.chain and not inexact(o)])
     case = gen_case(first, rng, types)
     if case is None: return None
     try:
@@ -719,7 +777,7 @@ def gen_chain(rng, types):
             u, _ = U.gen_tensor(rng, types=ts2, kind=("bool" if cur.dtype == torch.bool else "float"),
                                 dtype=("f32" if cur.dtype == torch.float32 else "f64"), pool=U.Pool(200 + 100 * len(chain)))
             if rng.random() < 0.15: u = U.onehot_like(u, rng, keep=0.25)
-            extra = [u]
+            extra = relayout([u], rng)
         try:
             with warnings.catch_warnings():
                 warnings.simplefilter("ignore")
@@ -760,9 +818,38 @@ def run_ops(tier, seed, violations, cov, mon):
     types_r = types + U.onehot_types()
     hist = {}; status_hist = {}; n_eval = 0; distinct = set(); samples = []; warn_cases = 0; ptvals = []; ptvals2 = []
     onehot_hist = {}
+    layout_hist = {}; layout_by_op = {}; result_layout_hist = {}; svals = {}
+    def storage_value(p, logical):
+        """wire value of storage_view_check for a torch tensor (small ones only)"""
+        if p.dtype not in (torch.float64, torch.float32, torch.bool) or p.numel() > 64 or p.numel() == 0: return
+        sizes, strides, off, flat = U.storage_view(p)
+        if flat.numel() > 200 or len(svals) >= 4000: return
+        v = (sizes, strides, off, [xv(x) for x in flat.tolist()], [xv(x) for x in logical])
+        svals.setdefault(repr(v), v)
+    def observe_layouts(case, out):
+        for sp in case["operands"]:
+            k = U.layout_kind(sp)
+            layout_hist[k] = layout_hist.get(k, 0) + 1
+            if k != "contiguous":
+                d = layout_by_op.setdefault(case["op"], {}); d[k] = d.get(k, 0) + 1
+                # the harness's claim "this storage holds these logical values", judged by the strided-view model
+                try: storage_value(U.build_tensor(sp).physical, sp["values"])
+                except Exception: pass
+        r = getattr(out, "first_res", None)
+        if hasattr(r, "physical") and hasattr(r, "paxes"):
+            p = r.physical
+            st = [x for x, n in zip(p.stride(), p.size()) if n > 1]
+            k = ("scalar" if not st else "expanded-full" if all(x == 0 for x in st) else "expanded-partial" if 0 in st
+                 else "contiguous" if p.is_contiguous() else "non-contiguous")
+            result_layout_hist[k] = result_layout_hist.get(k, 0) + 1
+            if k not in ("contiguous", "scalar"):
+                # storage made by the library (expand, getitem, any, iter, ...): read through the same model
+                try: storage_value(p, p.reshape(-1).tolist())
+                except Exception: pass
     def judge(case, out):
         nonlocal n_eval, warn_cases
         n_eval += 1
+        observe_layouts(case, out)
         name = case["op"] + ("+" + "+".join(c[0] for c in case.get("chain", [])) if case.get("chain") else "")
         hist[case["op"]] = hist.get(case["op"], 0) + 1
         status_hist[out.status] = status_hist.get(out.status, 0) + 1
@@ -826,10 +913,15 @@ def run_ops(tier, seed, violations, cov, mon):
     cov["tensor_level"] = dict(op_histogram=hist, outcome_histogram=status_hist, compositions=n_chain,
                                exhaustive_pattern_pool=len(patterns), cases_with_type_mismatch_warning=warn_cases,
                                onehot_operand_cases=dict(total=sum(onehot_hist.values()), by_op_and_position=onehot_hist,
-                                                         rule="operand without physical axes whose virtual shape is not all ones"))
+                                                         rule="operand without physical axes whose virtual shape is not all ones"),
+                               storage_layouts=dict(operands=layout_hist, non_contiguous_operands_by_op=layout_by_op,
+                                                    results_of_single_operations=result_layout_hist,
+                                                    rule="layout of the physical tensor handed to the library (operands) / returned by it (results): "
+                                                         "expanded-partial = some but not all strides 0; overlap = two dimensions share a stride"))
     cov["samples"] = samples[:3]
     cov["_ptvals"] = ptvals
     cov["_ptvals2"] = ptvals2
+    cov["_svals"] = list(svals.values())
     return n_eval, len(distinct)
 
 def replay_case(c):
